@@ -32,7 +32,7 @@ from datetime import datetime, timedelta
 from hashlib import sha256
 from itertools import chain
 from typing import (Any, Callable, List, MutableMapping, Optional, Sequence,
-                    Tuple)
+                    Set, Tuple)
 
 import vobject
 
@@ -273,6 +273,20 @@ def get_uid(vobject_component: vobject.base.Component) -> str:
     """UID value of an item if defined."""
     return (vobject_component.uid.value or ""
             if hasattr(vobject_component, "uid") else "")
+
+
+def get_tzids(vobject_component: vobject.base.Component) -> Set[str]:
+    """TZIDs referenced by the properties of a component (recursively)."""
+    tzids: Set[str] = set()
+    for line in vobject_component.lines():
+        # vobject moves ``TZID`` of parsed date-times to
+        # ``X-VOBJ-ORIGINAL-TZID``
+        for key in ("TZID", "X-VOBJ-ORIGINAL-TZID"):
+            tzids.update(v for v in line.params.get(key, [])
+                         if isinstance(v, str))
+    for component in vobject_component.components():
+        tzids.update(get_tzids(component))
+    return tzids
 
 
 def get_uid_from_object(vobject_item: vobject.base.Component) -> str:
